@@ -26,7 +26,7 @@ RULE = ('(a) REL/RELA sections and DT_REL/DT_RELA/DT_JMPREL tables (reached thro
 N = {'quick': 6000, 'thorough': 300000}
 ASSUMPTIONS = ['sh_entsize / DT_RELENT / DT_RELAENT / DT_RELRENT equal the entry size, table sizes are whole multiples of it; table addresses are non-zero and mapped by exactly one PT_LOAD',
                'RELR address entries are even (not necessarily word aligned) and small enough that no decoded address exceeds 2^class; a stream never starts with a bitmap',
-               'relocatable objects: sh_addr = 0 (P = r_offset), symbols are not STT_FUNC (no Thumb/descriptor adjustments), S = st_value, fields lie inside the section and do not overlap except LoongArch ADDn/SUBn pairs of equal width on one field',
+               'relocatable objects: sh_addr = 0 (P = r_offset), symbols of every type but STT_FUNC (no Thumb/descriptor adjustments; FILE, COMMON, TLS, GNU_IFUNC and OS/processor-specific types included: S = st_value whatever the type), fields lie inside the section and do not overlap except LoongArch ADDn/SUBn pairs of equal width on one field',
                'the machine classes of A.5 (x86/ARM/MIPS-o32 ELF32, the others ELF64) plus ELFCLASS32 containers of x86-64 (x32), MIPS RELA (n32) and LoongArch (LA32); not AArch64 ILP32 (its own type numbers); both byte orders for every machine because the library is byte-order generic',
                'R_ARM_CALL, MIPS-RELA R_MIPS_NONE and BPF are neither required nor forbidden by the property and are not generated; an n64 composite counts only when r_type2 or r_type3 is non-zero',
                'a *_NONE relocation touches no byte, so it may sit anywhere in the section, also in its last bytes (generated only in dedicated cases, bucket apply|none-near-end)']
@@ -948,7 +948,7 @@ def gen_apply(ch, tier, mk=None, le=None, neg='auto'):
         targets[-1]['relsec'] = False
         targets[-1]['relocs'] = []
     case = {'kind': 'apply', 'mk': mk, 'em': em, 'cls': cls, 'le': le, 'syms': syms, 'targets': targets,
-            'syminfo': [ch.choice([0x03, 0x00, 0x01, 0x10, 0x11]) for _ in range(3)], 'symshndx': [ch.choice([1, 2, 0xfff1]) for _ in range(3)]}
+            'syminfo': [ch.choice([0x03, 0x00, 0x01, 0x10, 0x11, 0x04, 0x05, 0x06, 0x1a, 0x2d, 0x16, 0x0f]) for _ in range(3)], 'symshndx': [ch.choice([1, 2, 0xfff1]) for _ in range(3)]}
     victim = targets[0]
     if neg == 'none_end':
         case['none_end'] = True
@@ -1075,7 +1075,7 @@ def _apply_case(mk, le, data, relocs, syms, rela=None, em=None, name='.debug_inf
     spec = REF.MACHINES[mk]
     case = {'kind': 'apply', 'mk': mk if em is None else None, 'em': spec['em'] if em is None else em, 'cls': spec['cls'], 'le': le, 'syms': syms,
             'targets': [{'name': name, 'data': bytes(data), 'rela': spec['rela'] if rela is None else rela, 'relocs': relocs}],
-            'syminfo': [3, 0, 1], 'symshndx': [1, 0xfff1, 2]}
+            'syminfo': [3, 0, 1, 6, 0x1a, 4], 'symshndx': [1, 0xfff1, 2]}
     case.update(kw)
     return case
 
